@@ -89,6 +89,21 @@ class World {
       enter: (act, name) => { self.ev('enter', act); self.stat('activations') },
       caught: (act, e) => { self.ev('catch', act); if (!(e instanceof SimFault)) self.foreign(e, 'caught by generated catch') }
     }
+    // H4 sentinel: every injected `let` is initialised with this object by the executor (instead of
+    // being left undefined), so that a temporary READ BEFORE IT WAS ASSIGNED is observable: any use of
+    // the sentinel (property access, call, conversion to a primitive, being handed to a hook) is the
+    // violation. `==`, `typeof` and plain copying do not trap, and never happen to a live temporary
+    // before its assignment in correct output either.
+    const sentinelUse = (how) => {
+      self.violate('H4', 'temporary-read-before-assignment' + (self.hasKnownCtx ? ':with-known-ctx' : ''), `an injected temporary was used before anything was assigned to it in this scope (${how})`)
+      return undefined
+    }
+    this.unassigned = new Proxy(function simUnassigned () {}, {
+      get (t, k) { return sentinelUse('read of .' + String(k)) },
+      apply () { return sentinelUse('called') },
+      construct () { sentinelUse('constructed'); return {} },
+      has (t, k) { sentinelUse('`in` test'); return false }
+    })
     this.hooks = new Proxy({}, {
       get (t, name) {
         if (typeof name !== 'string') return undefined
@@ -262,6 +277,7 @@ class World {
     if (!this.monitor) return res
     this.events++
     this.stat('hook-calls')
+    if (args.some(a => a === this.unassigned)) this.violate('H4', 'temporary-read-before-assignment' + (this.hasKnownCtx ? ':with-known-ctx' : ''), `hook ${name} received a temporary nothing was assigned to`)
     const operator = name === 'plusOperator' || name === 'tplOperator'
     const operands = operator ? args.slice(1) : args.slice(2)
     const toks = []
